@@ -240,7 +240,7 @@ def run_hand(case, rec=None):
     for name, cls_ in (('generated', gen), ('hand', hand)):
         first = wbk.Executor().set_executed_class(class_object=cls_)
         second = wbk.Executor().set_executed_class(class_object=cls_)
-        first.set_cells([wbk.Cell('S', 'A', '1', 1000), wbk.Cell('S', 'A', '2', 'changed'), wbk.Cell('S', 'D', '1', -5)])
+        wbk.outcome(lambda: first.set_cells([wbk.Cell('S', 'A', '1', 1000), wbk.Cell('S', 'A', '2', 'changed'), wbk.Cell('S', 'D', '1', -5)]))
         out = []
         for t, a in zip(texts, addrs):
             c, r = wbk.split_a1(a)
